@@ -32,7 +32,7 @@ ADV = [
     [[1, 1, None], [2, 1, None]],
     [[1, 2, 1]],
 ]
-NSEQ = {"quick": 1, "thorough": 3}
+NSEQ = {"quick": 1, "thorough": 2}
 
 
 def derive(rows):
@@ -50,6 +50,11 @@ def worlds(tier):
             n = len(rows)
             rev = [[n - r[0] + 1, r[1], r[2]] for r in rows]
             ws.append({"tables": {"T": {"cols": COLS, "rows": derive(rev)}}})
+    if tier == "thorough":
+        # every sequence of exactly 3 rows over four row types (nulls in either column, a tie)
+        for seq in itertools.product([(1, 1), (1, None), (None, 2), (2, 2)], repeat=3):
+            rows = [[i + 1, g, x] for i, (g, x) in enumerate(seq)]
+            ws.append({"tables": {"T": {"cols": COLS, "rows": derive(rows)}}})
     for rows in ADV:
         ws.append({"tables": {"T": {"cols": COLS, "rows": derive(rows)}}})
     return ws
@@ -239,7 +244,7 @@ def plan(tier):
         n = len(w["tables"]["T"]["rows"])
         out.append(("arr", wi, 1))
         out.append(("win", wi, 0))
-        if tier == "thorough" and n <= 2:
+        if tier == "thorough" and wi >= len(ws) - len(ADV):
             out.append(("arr2", wi, 2))
     return out
 
@@ -277,7 +282,7 @@ def describe(tier):
             "second_arrange_forms": [T.py_event(e) for e in ARR2],
             "follow_ups": [T.py_event(e) for e in FOLLOW],
             "sample_forms": [T.py_event(e) for e in ARR1[::9]],
-            "shape": "arrange [arrange] follow-up{0..1}" + (" (follow-up{0..2} on inputs of <= 2 rows)" if tier == "thorough" else ""),
+            "shape": "arrange [arrange] follow-up{0..1}" + (" (follow-up{0..2} on the adversarial tables)" if tier == "thorough" else ""),
         },
         "win": {
             "window_events": len(WIN_SRC),
@@ -287,7 +292,9 @@ def describe(tier):
             "positions": "first verb; after filter / rename / group_by / arrange; after arrange>>slice_head (refused on SQL) and after arrange>>slice_head>>alias; before filter (on k / on the window column, direct and after alias), select, ungroup, slice_head",
             "sample_events": [T.py_event(e) for e in WIN_SRC[::17]],
         },
-        "input_family": f"every sequence of 0..{NSEQ[tier]} rows over g,x in {{null,1,2}} (b := x==2), each with ids ascending and descending along the input order, plus 8 adversarial tables (ties, null runs)",
+        "input_family": f"every sequence of 0..{NSEQ[tier]} rows over g,x in {{null,1,2}} (b := x==2), each with ids ascending and descending along the input order, "
+                        + ("every sequence of 3 rows over the row types (1,1),(1,null),(null,2),(2,2), " if tier == "thorough" else "")
+                        + "plus 8 adversarial tables (ties, null runs)",
         "n_worlds": len(worlds(tier)),
         "backends": ["polars", "sqlite"],
         "oracle": "reference model: exact row sequence after arrange (polars: always, by stability; SQLite: when the keys are total), window value per row, rows neither dropped nor reordered",
